@@ -9,7 +9,14 @@
                                                 the flag must not change anything: the embedded key is always compressed)
      ecies.encrypt_wif wif bpub msg excl     -> the same with the sender key read by PrivateKey::from_wif (Model/Keys.v)
      ecies.decrypt  b apub ser haspk         -> OK:<message>          (from_bytes, then decrypt)
-     ecies.parse    ser haspk                -> OK:<to_bytes>;<pub|->;<body>;<mac>;<extract_public_key: pub|ERR>
+     ecies.parse    ser haspk                -> OK:<to_bytes>;<pub|->;<body>;<mac>;<extract_public_key: pub|ERR>;<get_cipher_keys: none>
+     ecies.mem      a bpub b apub b2 a2pub msg excl
+                                             -> <r1>,<r2>,<r3>: encrypt(msg, a, bpub), then ON THE RETURNED OBJECT (no serialisation)
+                                                decrypt with (b, apub), (b2, apub), (b, a2pub); then the same three through
+                                                PrivateKey::decrypt_message: <r4>,<r5>,<r6>
+     ecies.sweep    a b excl seed start step count
+                                             -> OK:<wire length>.<checksum of the serialised bytes>.<1 iff parse+decrypt returns the message>,...
+                                                for the message lengths start, start+step, ... (one ECDH per direction for the whole case)
      ecies.flip     b apub ser haspk bit     -> <decrypt of ser>,<decrypt of ser with that bit flipped>
      ecies.self     d comp msg               -> OK:<serialised>;<message>   (PrivateKey::encrypt_message / decrypt_message)
      ecies.pub      a bpub msg               -> OK:<serialised>             (PublicKey::encrypt_message)
@@ -66,7 +73,7 @@ Definition spec_encrypt (a : Z) (B : ec_pt E) (msg : bytes) (excl : bool) : stri
 Definition show_parse (c : ciphertext) : string :=
   "OK:" +++ show_bytes (to_bytes c) +++ ";" +++ match ct_pub c with Some p => hex_of_bytes p | None => "-" end +++ ";"
   +++ show_bytes (ct_body c) +++ ";" +++ hex_of_bytes (ct_mac c) +++ ";"
-  +++ match extract_public_key O c with Ok p => hex_of_bytes p | _ => "ERR" end.
+  +++ match extract_public_key O c with Ok p => hex_of_bytes p | _ => "ERR" end +++ ";none".
 
 Definition flip_bit (bs : bytes) (i : N) : bytes :=
   let k := N.to_nat (i / 8) in
@@ -118,7 +125,14 @@ Definition run (op : string) (args : list string) : string :=
   | "ecies.parse", [s; h] =>
       match expand s, arg_bool h with
       | Some ser, Some haspk =>
-          out3 (show_o show_parse (from_bytes O ser haspk)) ("ERR~OK:" +++ show_bytes ser +++ ";*;*;*;*") "-"
+          out3 (show_o show_parse (from_bytes O ser haspk))
+               (match bie1_split E haspk ser with
+                | Some (R, body, mac) =>
+                    "OK:" +++ show_bytes ser +++ ";" +++ match R with Some p => hex_of_bytes p | None => "-" end +++ ";"
+                    +++ show_bytes body +++ ";" +++ hex_of_bytes mac +++ ";"
+                    +++ match R with Some p => hex_of_bytes p | None => "ERR" end +++ ";none"
+                | None => "ERR"
+                end) "-"
       | _, _ => "BADARG"
       end
   | "ecies.flip", [b; ap; s; h; i] =>
@@ -133,6 +147,62 @@ Definition run (op : string) (args : list string) : string :=
             end
       | KBad, _, _, _, _ | _, KBad, _, _, _ | _, _, None, _, _ | _, _, _, None, _ | _, _, _, _, None => "BADARG"
       | _, _, _, _, _ => "ERR|-|-"
+      end
+  | "ecies.mem", [a; bp; b; ap; b2; a2p; m; x] =>
+      match arg_priv a, arg_pub bp, arg_priv b, arg_pub ap, arg_priv b2, arg_pub a2p, expand m, arg_bool x with
+      | KGood da, KGood (pb, _), KGood db, KGood (pa, _), KGood db2, KGood (pa2, _), Some msg, Some excl =>
+          let three (c : ciphertext) :=
+            show_o show_msg (decrypt O c db pa) +++ "," +++ show_o show_msg (decrypt O c db2 pa) +++ ","
+            +++ show_o show_msg (decrypt O c db pa2) in
+          out3 (match encrypt O msg da pb excl with
+                | Ok c => three c +++ "," +++ three c      (* PrivateKey::decrypt_message = decrypt_impl *)
+                | Err => "ERR" | Panic => "PANIC" end)
+               (let r := show_msg msg +++ ",ERR,ERR" in r +++ "," +++ r) "-"
+      | KInvalid, _, _, _, _, _, _, _ | _, KInvalid, _, _, _, _, _, _ | _, _, KInvalid, _, _, _, _, _
+      | _, _, _, KInvalid, _, _, _, _ | _, _, _, _, KInvalid, _, _, _ | _, _, _, _, _, KInvalid, _, _ => "ERR|-|-"
+      | _, _, _, _, _, _, _, _ => "BADARG"
+      end
+  | "ecies.sweep", [a; b; x; sd; st; sp; cn] =>
+      match arg_priv a, arg_priv b, arg_bool x, N_of_dec sd, N_of_dec st, N_of_dec sp, N_of_dec cn with
+      | KGood da, KGood db, Some excl, Some seed, Some start, Some step, Some count =>
+          if (64 <? count)%N || (100000 <? start + step * count)%N then "BADARG"
+          else
+            let pa := to_public_key O da true in
+            let pb := to_public_key O db true in
+            let lens := map (fun i => (N.of_nat i, N.to_nat (start + step * N.of_nat i))) (seq 0 (N.to_nat count)) in
+            let item (ser : outcome bytes) (back : outcome bytes) (msg : bytes) : string :=
+              match ser with
+              | Ok s => let '(fa, fb) := fletcher s 1 0 in
+                        dec_of_N (N.of_nat (length s)) +++ "." +++ dec_of_N (fb * 65536 + fa) +++ "." +++
+                        match back with Ok m' => if bytes_eqb m' msg then "1" else "0" | _ => "0" end +++ ","
+              | _ => "E,"
+              end in
+            let impl :=
+              match derive_cipher_keys O da pb, derive_cipher_keys O db pa with
+              | Ok k, Ok k' =>
+                  "OK:" +++ String.concat "" (map (fun '(i, n) =>
+                     let msg := lcg_bytes n (seed + i) in
+                     let c := encrypt_with O k msg da excl in
+                     item (omap to_bytes c) (do c0 <- c; do c' <- from_bytes O (to_bytes c0) (negb excl); decrypt_with O k' c') msg) lens)
+              | Panic, _ | _, Panic => "PANIC"
+              | _, _ => "ERR"
+              end in
+            let spec :=
+              let A := ec_smul E da (ec_G E) in
+              let S := ec_smul E da (ec_smul E db (ec_G E)) in
+              let S' := ec_smul E db A in
+              if ec_is_inf E S || ec_is_inf E S' then "ERR"
+              else
+                let ks := key_schedule E S in
+                let ks' := key_schedule E S' in
+                let R := if excl then [] else compressed E A in
+                "OK:" +++ String.concat "" (map (fun '(i, n) =>
+                   let msg := lcg_bytes n (seed + i) in
+                   let s := bie1_seal ks R msg in
+                   item (Ok s) (of_option (bie1_open E ks' (negb excl) s)) msg) lens) in
+            out3 impl spec "-"
+      | KInvalid, _, _, _, _, _, _ | _, KInvalid, _, _, _, _, _ => "ERR|-|-"
+      | _, _, _, _, _, _, _ => "BADARG"
       end
   | "ecies.self", [a; cf; m] =>
       match arg_priv a, arg_bool cf, expand m with
@@ -161,7 +231,7 @@ Definition run (op : string) (args : list string) : string :=
       | _, _ => "ERR|-|-"
       end
   | _, _ => match op with
-            | "ecies.encrypt" | "ecies.encrypt_wif" | "ecies.pub" | "ecies.decrypt" | "ecies.parse" | "ecies.flip" | "ecies.self" | "ecies.ephemeral" => "BADARG"
+            | "ecies.mem" | "ecies.sweep" | "ecies.encrypt" | "ecies.encrypt_wif" | "ecies.pub" | "ecies.decrypt" | "ecies.parse" | "ecies.flip" | "ecies.self" | "ecies.ephemeral" => "BADARG"
             | _ => "BADOP"
             end
   end.
